@@ -60,6 +60,10 @@ def initial_state():
     st["schemas"]["w"] = {"dict": "ty", "algebra": ["derive/^z/c/"]}
     st["vocab"]["essay"] = [("子", 9), ("子丑", 4)]
     st["inc"] = {"algebra": ["derive/^j/g/", "abbrev/^([a-z]).+$/$1/"]}
+    st["preset"] = {"punct": [(",", "，"), (".", "。")], "bindings": [("Control+p", "Up"), ("Control+n", "Down")],
+                    "patterns": [("email", "^[a-z]+@$")]}
+    st["schemas"]["t"]["presets"] = ["punctuator"]
+    st["schemas"]["w"]["presets"] = ["key_binder", "recognizer"]
     return st
 
 
@@ -74,6 +78,8 @@ def sub_loc(st, rel):
         return (st, "schema_list" if d == "shared" else "user_default")
     if base == "inc.yaml":
         return (st, "inc")
+    if base == "mypunct.yaml":
+        return (st, "preset")
     for suffix, shared_key, user_key in ((".schema.yaml", "schemas", "user_schemas"), (".dict.yaml", "dicts", "user_dicts")):
         if base.endswith(suffix):
             return (st.setdefault(shared_key if d == "shared" else user_key, {}), base[:-len(suffix)])
@@ -107,7 +113,34 @@ def random_edit(st, rng, versions=None, files=None):
     k = rng.choice(["row", "row", "row", "algebra", "algebra", "custom", "custom", "defcustom", "import", "pack",
                     "list", "vocab", "usevocab", "touch", "noop", "noop",
                     "restore", "restore", "restore", "usercopy", "usercopy", "usercopy", "usercopy-del", "usercopy-del",
-                    "include", "include", "inc-edit", "inc-edit"])
+                    "include", "include", "inc-edit", "inc-edit",
+                    "preset-toggle", "preset-edit", "preset-edit", "preset-edit", "preset-custom-toggle", "preset-custom-toggle"])
+    if k == "preset-toggle":
+        x = rng.choice(sorted(st["schemas"]))
+        sec = rng.choice(["punctuator", "key_binder", "recognizer"])
+        pl = st["schemas"][x].setdefault("presets", [])
+        if sec in pl:
+            pl.remove(sec)
+        else:
+            pl.append(sec)
+        return "preset-toggle %s %s" % (x, sec)
+    if k == "preset-edit":
+        pr = st["preset"]
+        which = rng.choice(["punct", "bindings", "patterns"])
+        if which == "punct":
+            pr["punct"].append((rng.choice("!?;:<>[]"), rng.choice(["！", "？", "；", "：", "《", "》"])))
+        elif which == "bindings":
+            pr["bindings"].append(("Control+%s" % rng.choice("abdefgh"), rng.choice(["Left", "Right", "Home", "End"])))
+        else:
+            pr["patterns"].append(("p%d" % rng.randint(1, 999), "^%s[a-z]+$" % rng.choice("xyz")))
+        return "preset-edit %s" % which
+    if k == "preset-custom-toggle":
+        cu = st.setdefault("custom", {})
+        if "mypunct" in cu and rng.random() < 0.5:
+            del cu["mypunct"]
+            return "preset-custom-remove"
+        cu.setdefault("mypunct", {})["punctuator/half_shape/%s" % rng.choice(["~", "^", "_"])] = rng.choice(["～", "……", "——"])
+        return "preset-custom-patch"
     if k == "include":
         x = rng.choice(sorted(st["schemas"]))
         st["schemas"][x]["include_algebra"] = not st["schemas"][x].get("include_algebra")
